@@ -149,6 +149,8 @@ func (p *Protocol) downloadBlockFromPeerOld(height int64, pid peer.ID) (*types.B
 		return nil, err
 	}
 	defer stream.Close()
+	// 对端建立连接后不应答时, 读写不能无限期阻塞, 否则整个下载任务无法结束
+	_ = stream.SetDeadline(time.Now().Add(time.Second * 10))
 	blockReq := types.MessageGetBlocksReq{
 		Message: &types.P2PGetBlocks{
 			StartHeight: height,
